@@ -5,12 +5,12 @@
 From SV Require Import Model.ProfileTables.
 From Coq Require Import NArith.
 
-(* frame key (frame_table.rs InternalFrame, with the flags fixed): name string index, Native (used-lib index, relative address,
-   native symbol, inline depth) or Label, file path string index, line, column, subcategory handle (category index, subcategory index) *)
+(* frame key (frame_table.rs InternalFrame): name string index, Native (used-lib index, relative address,
+   native symbol, inline depth) or Label, file path string index, line, column, subcategory handle (category index, subcategory index), frame flags (bit 0 IS_JS, bit 1 IS_RELEVANT_FOR_JS) *)
 Record natinfo := mkNI { ni_lib : nat; ni_rel : N; ni_ns : option nat; ni_depth : N }.
-Record fkey := mkFK { fk_name : nat; fk_native : option natinfo; fk_file : option nat; fk_line : option N; fk_col : option N; fk_sub : nat * nat }.
-(* func key (func_table.rs FuncKey): name string index, file path string index, used-lib index *)
-Record funckey := mkFu { fu_name : nat; fu_file : option nat; fu_lib : option nat }.
+Record fkey := mkFK { fk_name : nat; fk_native : option natinfo; fk_file : option nat; fk_line : option N; fk_col : option N; fk_sub : nat * nat; fk_flags : N }.
+(* func key (func_table.rs FuncKey): name string index, file path string index, used-lib index, frame flags *)
+Record funckey := mkFu { fu_name : nat; fu_file : option nat; fu_lib : option nat; fu_flags : N }.
 
 Definition onat_eqb (a b : option nat) : bool := match a, b with None, None => true | Some x, Some y => Nat.eqb x y | _, _ => false end.
 Definition oN_eqb (a b : option N) : bool := match a, b with None, None => true | Some x, Some y => N.eqb x y | _, _ => false end.
@@ -20,9 +20,9 @@ Definition fkey_eqb (a b : fkey) : bool :=
   Nat.eqb (fk_name a) (fk_name b) &&
   match fk_native a, fk_native b with None, None => true | Some x, Some y => natinfo_eqb x y | _, _ => false end &&
   onat_eqb (fk_file a) (fk_file b) && oN_eqb (fk_line a) (fk_line b) && oN_eqb (fk_col a) (fk_col b) &&
-  Nat.eqb (fst (fk_sub a)) (fst (fk_sub b)) && Nat.eqb (snd (fk_sub a)) (snd (fk_sub b)).
+  Nat.eqb (fst (fk_sub a)) (fst (fk_sub b)) && Nat.eqb (snd (fk_sub a)) (snd (fk_sub b)) && N.eqb (fk_flags a) (fk_flags b).
 Definition funckey_eqb (a b : funckey) : bool :=
-  Nat.eqb (fu_name a) (fu_name b) && onat_eqb (fu_file a) (fu_file b) && onat_eqb (fu_lib a) (fu_lib b).
+  Nat.eqb (fu_name a) (fu_name b) && onat_eqb (fu_file a) (fu_file b) && onat_eqb (fu_lib a) (fu_lib b) && N.eqb (fu_flags a) (fu_flags b).
 
 Record ttab := mkTT {
   tt_strings : list N;                         (* stringArray: content ids in order of first use *)
@@ -60,7 +60,7 @@ Definition frame_for (t : ttab) (k : fkey) (libname : N) : nat * ttab :=
   match index_of fkey_eqb k (tt_frames t) with
   | Some i => (i, t)
   | None =>
-      let '(f, t1) := func_for t (mkFu (fk_name k) (fk_file k) (option_map ni_lib (fk_native k))) libname in
+      let '(f, t1) := func_for t (mkFu (fk_name k) (fk_file k) (option_map ni_lib (fk_native k)) (fk_flags k)) libname in
       (length (tt_frames t1), mkTT (tt_strings t1) (tt_res_lib t1) (tt_res_name t1) (tt_funcs t1) (tt_func_res t1) (tt_frames t1 ++ [k]) (tt_frame_func t1 ++ [f]) (tt_ns t1) (tt_ns_name t1))
   end.
 
@@ -89,20 +89,20 @@ Inductive freq :=
 Definition intern_opt (t : ttab) (s : option N) : option nat * ttab :=
   match s with Some x => let '(i, t1) := intern_string t x in (Some i, t1) | None => (None, t) end.
 
-(* sc: the subcategory handle the call was given (requests that make no frame ignore it) *)
-Definition do_req (t : ttab) (r : freq) (sc : nat * nat) : ttab :=
+(* sc, fl: the subcategory handle and the frame flags the call was given (requests that make no frame ignore them) *)
+Definition do_req (t : ttab) (r : freq) (sc : nat * nat) (fl : N) : ttab :=
   match r with
   | FString s => snd (intern_string t s)
-  | FLabel name => let '(n, t1) := intern_string t name in snd (frame_for t1 (mkFK n None None None None sc) 0%N)
+  | FLabel name => let '(n, t1) := intern_string t name in snd (frame_for t1 (mkFK n None None None None sc fl) 0%N)
   | FLabelLoc name file line col =>
       let '(n, t1) := intern_string t name in
       let '(f, t2) := intern_opt t1 file in
-      snd (frame_for t2 (mkFK n None f line col sc) 0%N)
+      snd (frame_for t2 (mkFK n None f line col sc fl) 0%N)
   | FNative lib rel hexname libname =>
-      let '(n, t1) := intern_string t hexname in snd (frame_for t1 (mkFK n (Some (mkNI lib rel None 0%N)) None None None sc) libname)
+      let '(n, t1) := intern_string t hexname in snd (frame_for t1 (mkFK n (Some (mkNI lib rel None 0%N)) None None None sc fl) libname)
   | FNativeSym lib rel symaddr symname libname =>
       let '(ns, t1) := native_symbol_for t lib symaddr symname in
-      snd (frame_for t1 (mkFK (nth ns (tt_ns_name t1) 0) (Some (mkNI lib rel (Some ns) 0%N)) None None None sc) libname)
+      snd (frame_for t1 (mkFK (nth ns (tt_ns_name t1) 0) (Some (mkNI lib rel (Some ns) 0%N)) None None None sc fl) libname)
   | FNs lib symaddr symname => snd (native_symbol_for t lib symaddr symname)
   | FSymbolicated addr hexname nslib nsaddr name file line col depth libname =>
       match index_of ns_key_eqb (nslib, nsaddr) (tt_ns t) with
@@ -119,10 +119,10 @@ Definition do_req (t : ttab) (r : freq) (sc : nat * nat) : ttab :=
                 (Some (mkNI lib rel (Some ns) depth), match nm with Some i => i | None => nth ns (tt_ns_name t1) 0 end, t1)
             end in
           let '(f, t3) := intern_opt t2 file in
-          snd (frame_for t3 (mkFK n variant f line col sc) libname)
+          snd (frame_for t3 (mkFK n variant f line col sc fl) libname)
       end
   end.
-Definition run_reqs (rs : list (freq * (nat * nat))) : ttab := fold_left (fun t r => do_req t (fst r) (snd r)) rs tt_empty.
+Definition run_reqs (rs : list (freq * (nat * nat * N))) : ttab := fold_left (fun t r => do_req t (fst r) (fst (snd r)) (snd (snd r))) rs tt_empty.
 
 (* every index stored in a column points into its table; columns have their table's length *)
 Record tt_wf (nlibs : nat) (t : ttab) : Prop := mkWF {
